@@ -78,7 +78,7 @@ CONFIG = {
             "thorough": {"shards": 16, "n": 5000, "scale": 40, "arg": 24}},
     "C18": {"quick": {"shards": 8, "n": 2500, "scale": 10, "arg": 6},
             "thorough": {"shards": 16, "n": 20000, "scale": 16, "arg": 10}},
-    "C07": {"quick": {"shards": 8, "n": 2500, "scale": 8, "arg": 10},
+    "C07": {"enum": True, "quick": {"shards": 8, "n": 2500, "scale": 8, "arg": 10},
             "thorough": {"shards": 16, "n": 20000, "scale": 10, "arg": 24}},
     "C17": {"enum": True, "quick": {"shards": 8, "n": 4000, "scale": 8, "arg": 9},
             "thorough": {"shards": 16, "n": 40000, "scale": 12, "arg": 24}},
@@ -273,6 +273,8 @@ def load_known():
 def env_for_run():
     e = dict(os.environ)
     e.update(SAN_ENV)
+    if os.environ.get("VERIF_TIER_RUNNING") == "thorough":
+        e.setdefault("VERIF_C20_MAXL", "5")
     return e
 
 
@@ -515,6 +517,7 @@ def save_replay(pid, data, tag):
 
 def check(pid, tier):
     t0 = time.time()
+    os.environ["VERIF_TIER_RUNNING"] = tier
     seed = int(os.environ.get("VERIF_SEED", "1") or "1")
     cfg = conf(pid)
     tcfg = cfg[tier]
